@@ -100,14 +100,32 @@ CellIndex(raw) ==
   [j \in 1..NCell(raw) |->
      LET b == SetBits(cm)[j] IN << ((b - 1) \div ns) + 1, ((b - 1) % ns) + 1 >>]
 
-\* full decode: what C04 requires the library to reproduce
-DecodeMSM(raw) ==
-  LET sats == Sats(raw) sigs == Sigs(raw) ci == CellIndex(raw) IN
+\* full decode: what C04 requires the library to reproduce.  (Written with explicit parameters and folds so that
+\* the masks are read once per message: TLC evaluates function constructors lazily, element by element.)
+DecodeWith(raw, t, sats, sigs, cm) ==
+  LET nsat == Len(sats)
+      nsig == Len(sigs)
+      setb == SetBits(cm)
+      nc == Len(setb)
+      satpos == SatDataPos(nsat, nsig)
+      sigpos == SigDataPos(t, nsat, nsig)
+      sf == SatFields(t)
+      gf == SigFields(t)
+  IN
   [ hdr  |-> Hdr(raw),
     sats |-> sats,
     sigs |-> sigs,
-    cellmask |-> CellMask(raw),
-    satcells |-> [k \in 1..Len(sats) |-> SatCell(raw, k)],
+    cellmask |-> cm,
+    satcells |-> FoldLeft(LAMBDA acc, k : Append(acc, FoldLeft(LAMBDA a2, fi : Append(a2, FieldVal(raw, sf, satpos, nsat, fi, k)),
+                                                                 <<>>, [fi \in 1..Len(sf) |-> fi])),
+                          <<>>, [k \in 1..nsat |-> k]),
     \* one entry per cell: <<satellite id, signal id, field values...>>
-    cells |-> [j \in 1..Len(ci) |-> << sats[ci[j][1]], sigs[ci[j][2]] >> \o SigCell(raw, j)] ]
+    cells |-> FoldLeft(LAMBDA acc, j :
+                         Append(acc, << sats[((setb[j] - 1) \div nsig) + 1], sigs[((setb[j] - 1) % nsig) + 1] >> \o
+                                     FoldLeft(LAMBDA a2, fi : Append(a2, FieldVal(raw, gf, sigpos, nc, fi, j)),
+                                              <<>>, [fi \in 1..Len(gf) |-> fi])),
+                       <<>>, [j \in 1..nc |-> j]) ]
+
+DecodeMSM(raw) ==
+  DecodeWith(raw, TypeOfRaw(raw), Sats(raw), Sigs(raw), CellMask(raw))
 =============================================================================
